@@ -63,7 +63,7 @@ fn unknown() -> Uuid {
 }
 
 fn alphabet(kind: BackendKind, handles: usize, tier: Tier) -> Vec<Call> {
-    if (tier == Tier::Quick && kind == BackendKind::GitLocal) || kind == BackendKind::GitRemote {
+    if (tier == Tier::Quick && kind == BackendKind::GitLocal) || matches!(kind, BackendKind::GitRemote | BackendKind::GitRemoteFresh) {
         // process spawning does not scale across cores in this sandbox (measured: 16 parallel git
         // loops take 16x as long), so the git backends get a reduced alphabet in the quick tier
         let mut v = vec![
@@ -165,7 +165,7 @@ pub fn run_sequence(kind: BackendKind, handles: usize, seq: &[Call]) -> Result<(
                             // A git clone that is behind its remote only learns the latest version when
                             // its push is rejected; it then names the latest version correctly, and
                             // the retry a replica makes must be accepted.
-                            let stale_clone = kind == BackendKind::GitRemote && Some(e) == latest && last_adder.is_some_and(|a| a != h);
+                            let stale_clone = matches!(kind, BackendKind::GitRemote | BackendKind::GitRemoteFresh) && Some(e) == latest && last_adder.is_some_and(|a| a != h);
                             if !stale_clone {
                                 return Err(ctx(format!("wrongly-rejected: parent {p} is the latest version (or there is none) but the version was rejected naming {e}")));
                             }
@@ -279,6 +279,7 @@ pub fn run(opts: &Opts) -> i32 {
         (BackendKind::Http, if q { 2 } else { 3 }),
         (BackendKind::GitLocal, if q { 2 } else { 3 }),
         (BackendKind::GitRemote, if q { 2 } else { 3 }),
+        (BackendKind::GitRemoteFresh, 0),
     ];
     let only = std::env::var("TCMC_BACKEND").ok();
     for (kind, depth) in plan {
@@ -287,7 +288,22 @@ pub fn run(opts: &Opts) -> i32 {
         }
         let handles = Backend::max_handles(kind);
         let alpha = alphabet(kind, handles, opts.tier);
-        let mut seqs = sequences(&alpha, depth);
+        let mut seqs = if depth == 0 { vec![] } else { sequences(&alpha, depth) };
+        if kind == BackendKind::GitRemoteFresh {
+            // two devices set up against a new, empty remote at the same time: directed sequences
+            // only (every run derives two keys from fresh random salts)
+            use Call::*;
+            use ParentSel::*;
+            let a = |h| Add { h, parent: Latest, payload: Payload::Small };
+            seqs.extend([
+                vec![a(0), GetChild { h: 1, of: 0 }, GetChild { h: 1, of: 1 }],
+                vec![a(0), a(1), GetChild { h: 0, of: 1 }, GetChild { h: 1, of: 0 }, GetChild { h: 1, of: 1 }],
+                vec![a(0), AddSnapshot { h: 0, at_latest: true }, GetSnapshot { h: 1 }, GetChild { h: 1, of: 0 }],
+            ]);
+            if !q {
+                seqs.extend([vec![a(1), a(0), a(1), GetChild { h: 0, of: 2 }], vec![GetChild { h: 1, of: 0 }, a(0), GetSnapshot { h: 1 }, a(1), GetChild { h: 0, of: 1 }]]);
+            }
+        }
         if kind == BackendKind::GitRemote {
             // a few directed deeper sequences around a clone that is behind its remote (the
             // exhaustive depth is small for this backend because every call costs several git
@@ -316,7 +332,7 @@ pub fn run(opts: &Opts) -> i32 {
                 })
                 .collect()
         };
-        let results = if matches!(kind, BackendKind::GitLocal | BackendKind::GitRemote) {
+        let results = if matches!(kind, BackendKind::GitLocal | BackendKind::GitRemote | BackendKind::GitRemoteFresh) {
             // spawning git from many threads only adds contention
             rayon::ThreadPoolBuilder::new().num_threads(2).build().unwrap().install(work)
         } else {
